@@ -59,6 +59,24 @@ fn engine_sh() {
                     writeln!(out, "ok {}{}", hex(cl.as_bytes()), alt_form(&format!("{:#?}", e), "Exec", &cl)).unwrap();
                 }
             }
+            // `she <name>:<value>[,<name>:<value>]* <arg>+`: the same command with environment overrides (`Exec::env`): they are
+            // printed in front of the command as assignments
+            "she" if toks.len() >= 3 => {
+                let argv: Vec<Vec<u8>> = toks[2..].iter().map(|t| unhex(t)).collect();
+                let mut e = mk_exec(&argv);
+                for kv in toks[1].split(',') {
+                    let mut it = kv.splitn(2, ':');
+                    let (k, v) = (unhex(it.next().unwrap_or("")), unhex(it.next().unwrap_or("")));
+                    e = e.env(s(&k), s(&v));
+                }
+                let cl = e.to_cmdline_lossy();
+                let dbg = format!("{:?}", e);
+                if dbg != format!("Exec {{ {} }}", cl) {
+                    writeln!(out, "debug-mismatch {}", hex(dbg.as_bytes())).unwrap();
+                } else {
+                    writeln!(out, "ok {}", hex(cl.as_bytes())).unwrap();
+                }
+            }
             "shp" => {
                 let mut stages: Vec<Vec<Vec<u8>>> = vec![vec![]];
                 for t in &toks[1..] {
@@ -303,6 +321,49 @@ fn stage_main(beh: &str) -> ! {
             die();
         }
         std::process::exit(code);
+    }
+    if let Some(ms) = beh.strip_prefix("SS") {
+        // stops itself (SIGSTOP) and is continued <ms> later by a helper that holds none of its streams; then copies its
+        // input and exits normally: whoever waits for it must wait for the EXIT, not for the stop
+        let ms: u64 = ms.parse().unwrap_or(300);
+        unsafe {
+            let me = libc::getpid();
+            if libc::fork() == 0 {
+                libc::close(0);
+                libc::close(1);
+                libc::close(2);
+                libc::usleep((ms * 1000) as libc::c_uint);
+                libc::kill(me, libc::SIGCONT);
+                libc::_exit(0);
+            }
+            libc::raise(libc::SIGSTOP);
+        }
+        let mut inp = stdin.lock();
+        let _ = std::io::copy(&mut inp, &mut out);
+        let _ = out.flush();
+        std::process::exit(0);
+    }
+    if let Some(n) = beh.strip_prefix("EC") {
+        // writes <n> bytes to its stderr (more than a pipe holds, if nobody reads them it blocks there), then copies
+        let n: usize = n.parse().unwrap_or(200_000);
+        let chunk = [b'e'; 4096];
+        let mut left = n;
+        let err = std::io::stderr();
+        let mut e = err.lock();
+        while left > 0 {
+            let k = left.min(chunk.len());
+            if e.write_all(&chunk[..k]).is_err() {
+                die();
+            }
+            left -= k;
+        }
+        drop(e);
+        let mut inp = stdin.lock();
+        if std::io::copy(&mut inp, &mut out).is_err() {
+            die();
+        }
+        let _ = out.flush();
+        std::process::exit(0);
     }
     if let Some(ms) = beh.strip_prefix('K') {
         // says one line, closes its stdout and stderr, and lives on for a while: the reader must see end-of-file at once
